@@ -34,17 +34,17 @@ theorem replace_hint (e : Str) :
   rw [h, List.append_nil]
 
 /-- one iteration of `for ct in cts`, in the model's terms, on the loop-carried `(encodings, out)` -/
-def ctStep (db : UDB) (cs : CharsetCheck) (ct : Str) (s : List Str × List TagCall) : Except Unit (List Str × List TagCall) :=
+def ctStep (db : UDB) (cs : CharsetCheck) (ct : Str) (s : List TagCall × List Str) : Except Unit (List TagCall × List Str) :=
   match contentTypeOne db cs ct with
   | .error () => .error ()
-  | .ok (t, e) => .ok (s.1 ++ e.toList, s.2 ++ t)
+  | .ok (t, e) => .ok (s.1 ++ t, s.2 ++ e.toList)
 
-theorem forEach_ct (db : UDB) (cs : CharsetCheck) (body : Str → List Str × List TagCall → Except Py.Exc (List Str × List TagCall))
-    (hb : ∀ ct s, erase (body ct s) = ctStep db cs ct s) (cts : List Str) (s : List Str × List TagCall) :
+theorem forEach_ct (db : UDB) (cs : CharsetCheck) (body : Str → List TagCall × List Str → Except Py.Exc (List TagCall × List Str))
+    (hb : ∀ ct s, erase (body ct s) = ctStep db cs ct s) (cts : List Str) (s : List TagCall × List Str) :
     erase (PyKit.forEach cts body s) =
       match contentTypeLoop db cs cts with
       | .error () => .error ()
-      | .ok (ts, es) => .ok (s.1 ++ es, s.2 ++ ts) := by
+      | .ok (ts, es) => .ok (s.1 ++ ts, s.2 ++ es) := by
   induction cts generalizing s with
   | nil => simp [PyKit.forEach, contentTypeLoop]
   | cons ct cts ih =>
@@ -133,7 +133,7 @@ macro "mime_lang_cases" pfx:ident lang:ident : tactic => `(tactic| (
 set_option hygiene false in
 macro "mime_body" : tactic => `(tactic| (
   intro ct s
-  obtain ⟨encs, o⟩ := s
+  obtain ⟨o, encs⟩ := s
   simp only [ctStep, contentTypeOne]
   cases hm : matchContentType x.db ct with
   | none =>
@@ -254,16 +254,16 @@ theorem check_mime_eq (x : Ext) (env : Charset.Env) (m : Meta) (tmpl : Bool) (la
   by_cases hc1 : (m.get "Content-Type".toList).length > 1
   · have hc0 : ¬ (m.get "Content-Type".toList).length = 0 := by omega
     simp only [hc1, hc0, if_true, if_false, dedup]
-    generalize hpre : Prod.mk ([] : List Str) _ = s0
+    generalize hpre : Prod.mk _ ([] : List Str) = s0
     generalize hfe : PyKit.forEach _ _ _ = r
     have hloop : erase r = match contentTypeLoop x.db (fun n => Charset.checkCharset env n tmpl lang) (HdrPy.sortedSet (m.get "Content-Type".toList)) with
         | .error () => .error ()
-        | .ok (ts, es) => .ok (s0.1 ++ es, s0.2 ++ ts) := by
+        | .ok (ts, es) => .ok (s0.1 ++ ts, s0.2 ++ es) := by
       rw [← hfe]
       clear hfe hpre
       refine forEach_ct x.db _ _ ?hb _ _
       mime_body
-    have hs0 : s0 = ([], out ++ (mimeVersionTags m ++ cteTags m ++ [tag "duplicate-header-field-content-type" []])) := by
+    have hs0 : s0 = (out ++ (mimeVersionTags m ++ cteTags m ++ [tag "duplicate-header-field-content-type" []]), []) := by
       rw [← hpre]
       clear hpre hfe hloop
       congr 1
@@ -299,16 +299,16 @@ theorem check_mime_eq (x : Ext) (env : Charset.Env) (m : Meta) (tmpl : Bool) (la
       subst hp
       simp only [hc0, if_true, erase_ok, List.append_assoc]
     · simp only [hc1, hc0, if_false, dedup]
-      generalize hpre : Prod.mk ([] : List Str) _ = s0
+      generalize hpre : Prod.mk _ ([] : List Str) = s0
       generalize hfe : PyKit.forEach _ _ _ = r
       have hloop : erase r = match contentTypeLoop x.db (fun n => Charset.checkCharset env n tmpl lang) (m.get "Content-Type".toList) with
           | .error () => .error ()
-          | .ok (ts, es) => .ok (s0.1 ++ es, s0.2 ++ ts) := by
+          | .ok (ts, es) => .ok (s0.1 ++ ts, s0.2 ++ es) := by
         rw [← hfe]
         clear hfe hpre
         refine forEach_ct x.db _ _ ?hbb _ _
         mime_body
-      have hs0 : s0 = ([], out ++ (mimeVersionTags m ++ cteTags m)) := by
+      have hs0 : s0 = (out ++ (mimeVersionTags m ++ cteTags m), []) := by
         rw [← hpre]
         clear hpre hfe hloop
         congr 1
